@@ -957,8 +957,8 @@ fn parse_json_filter(input: &[u8], output: &mut [u8]) -> Result<(usize, usize), 
             let countindex = end;
             end += 2;
             put(output, end, 1_u16.to_ne_bytes().as_slice())?;
-            if output.len() < end + 2 {
-                return Err(InnerError::BufferTooSmall(end + 2).into());
+            if output.len() < end + 3 {
+                return Err(InnerError::BufferTooSmall(end + 3).into());
             }
             output[end + 2] = letter;
 
@@ -979,7 +979,11 @@ fn parse_json_filter(input: &[u8], output: &mut [u8]) -> Result<(usize, usize), 
                 }
                 verify_char(input, b'"', &mut inpos)?;
                 // copy  data
-                let (inlen, outlen) = json_unescape(&input[inpos..], &mut output[end + 2..])?;
+                let outbuf = match output.get_mut(end + 2..) {
+                    Some(o) => o,
+                    None => return Err(InnerError::BufferTooSmall(end + 2).into()),
+                };
+                let (inlen, outlen) = json_unescape(&input[inpos..], outbuf)?;
                 // write len
                 put(output, end, (outlen as u16).to_ne_bytes().as_slice())?;
                 end += 2 + outlen;
